@@ -75,6 +75,9 @@ def make_objective(name, np, ub, rettype):
     if name == 'tiny':
         # every value (and so every improvement) is far below 1e-10: a strict improvement is one however small
         return lambda x: conv(1e-13 * np.sum((x - 0.25 * ubc) ** 2))
+    if name == 'tinier':
+        # … and on a scale far below the spacing of floats around 1: 1 + f == 1 for every value, yet values still differ
+        return lambda x: conv(1e-20 * np.sum((x - 0.25 * ubc) ** 2))
     if name == 'rastrigin':
         return lambda x: conv(10 * x.size + np.sum(x ** 2 - 10 * np.cos(2 * np.pi * x)))
     if name == 'plateau':
